@@ -492,12 +492,94 @@ def stream_big(ctx):
                           "rows %s differ from the supplied value / default" % [r[0] for r in res])
 
 
+# ------------------------------------------------------------------------------------------------
+# stream 6: one large segment.  While a segment is written, all per-document columns share one
+# CompoundWriter whose sub-streams stage data in a 32 KB buffer; only a segment whose column data
+# crosses that buffer several times (with buffered lengths going up and down) exercises the flush
+# path.  Oracle = the supplied values themselves (Layer S `cell`: the value added for that row).
+
+def _real_large(arg):
+    import random
+    import shutil
+    import tempfile
+    from whoosh import fields, index
+    seed, ndocs, storage = arg
+    rnd = random.Random(seed)
+    schema = fields.Schema(k=fields.ID(stored=True), body=fields.STORED, tag=fields.ID(sortable=True),
+                           n=fields.NUMERIC(int, 32, sortable=True), flag=fields.BOOLEAN(stored=True))
+    docs = []
+    for i in range(ndocs):
+        body = "".join(rnd.choice("0123456789abcdefghijklmnopqrstuvwxyz\u00e9\u4e2d") for _ in range(rnd.randint(0, 700)))
+        d = {"k": u"k%06d" % i}
+        if rnd.random() < 0.9:
+            d["body"] = body
+        if rnd.random() < 0.85:
+            d["tag"] = u"t%d-%s" % (i, body[:rnd.randint(0, 60)])
+        if rnd.random() < 0.7:
+            d["n"] = rnd.randint(-2 ** 31, 2 ** 31 - 1)
+        docs.append(d)
+    tmp = tempfile.mkdtemp(prefix="wverif-c08large-")
+    bad = []
+    try:
+        if storage == "ram":
+            from whoosh.filedb.filestore import RamStorage
+            ix = RamStorage().create_index(schema, indexname="large%d" % seed)
+        else:
+            ix = index.create_in(tmp, schema)
+        with ix.writer() as w:
+            for d in docs:
+                w.add_document(**d)
+        with ix.searcher() as s:
+            r = s.reader()
+            tag, num = r.column_reader("tag"), r.column_reader("n")
+            ndefault = schema["n"].column_type.default_value() if hasattr(schema["n"].column_type, "default_value") else None
+            for docnum, d in enumerate(docs):
+                want = {k: v for k, v in d.items() if k in ("k", "body")}
+                try:
+                    got = r.stored_fields(docnum)
+                except Exception as e:  # noqa
+                    got = "!" + type(e).__name__
+                if got != want:
+                    bad.append(("stored_fields", docnum, str(want)[:80], str(got)[:80]))
+                try:
+                    gt = tag[docnum]
+                except Exception as e:  # noqa
+                    gt = "!" + type(e).__name__
+                if gt != d.get("tag", u""):
+                    bad.append(("column tag", docnum, d.get("tag", u"")[:60], gt[:60]))
+                try:
+                    gn = num[docnum]
+                except Exception as e:  # noqa
+                    gn = "!" + type(e).__name__
+                if "n" in d and gn != d["n"]:
+                    bad.append(("column n", docnum, d["n"], gn))
+    finally:
+        shutil.rmtree(tmp, ignore_errors=True)
+    return ndocs, sum(len(d.get("body", "")) for d in docs), bad[:5], len(bad)
+
+
+def stream_large(ctx):
+    rng = ctx.rng("large")
+    args = [(rng.randrange(1 << 30), rng.choice([1500, 2500, 3500]), st)
+            for st in (["file", "ram"] * ctx.budget(2, 8))]
+    for (seed, ndocs, storage), (n, size, bad, nbad) in zip(args, ctx.pmap(_real_large, args)):
+        ctx.case(("large", seed, ndocs, storage), nontrivial=size > 3 * 32768)
+        ctx.stat("large:storage=" + storage)
+        if nbad:
+            ctx.violation("large-segment:%s!=supplied-value" % bad[0][0].replace(" ", "-"),
+                          {"_stream": "large", "seed": seed, "ndocs": ndocs, "storage": storage, "first_bad": bad},
+                          "every row returns the value supplied for it", "%d rows differ" % nbad,
+                          "stored/column values of a segment large enough to flush the column staging buffer "
+                          "several times")
+
+
 def run(ctx):
     _corpus(ctx)
     stream_columns(ctx, ctx.budget(1500, 12000))
     stream_wrapped(ctx, ctx.budget(600, 4000))
     stream_lists(ctx, ctx.budget(600, 4000))
     stream_api(ctx, ctx.budget(200, 1500))
+    stream_large(ctx)
     if ctx.tier == "thorough":
         stream_big(ctx)
 
